@@ -250,6 +250,11 @@ var vfPolys = []orb.Polygon{
 	{{{0, 0}, {3, 0}, {3, 3}, {0, 3}}, {{1, 1}, {2, 1}, {1, 2}}, {{2, 2}, {2.5, 2}, {2.5, 2.5}}},
 	{{{0, 0}, {3, 0}, {0, 3}}, {{0, 0}, {1, 0}, {0, 1}}}, // hole sharing a corner and edges with the outer ring
 	{{{0, 0}, {1, 0}, {1, 1}, {0, 1}}},
+	// two disjoint triangular holes whose bounding boxes overlap, in both orders; three holes; an empty hole first
+	{{{0, 0}, {8, 0}, {8, 8}, {0, 8}}, {{1, 1}, {5, 1}, {1, 5}}, {{5, 2}, {5, 5}, {2, 5}}},
+	{{{0, 0}, {8, 0}, {8, 8}, {0, 8}}, {{5, 2}, {5, 5}, {2, 5}}, {{1, 1}, {5, 1}, {1, 5}}},
+	{{{0, 0}, {8, 0}, {8, 8}, {0, 8}, {0, 0}}, {{1, 1}, {5, 1}, {1, 5}, {1, 1}}, {{6, 6}, {7, 6}, {7, 7}, {6, 6}}, {{5, 2}, {5, 5}, {2, 5}, {5, 2}}},
+	{{{0, 0}, {4, 0}, {4, 4}, {0, 4}}, {}, {{1, 1}, {2, 1}, {1, 2}}},
 }
 
 func vfRingOracle(r orb.Ring, q orb.Point) bool {
